@@ -238,6 +238,9 @@ def H_TARGETS := "later_target_operand_hoisted_before_earlier_store"
 def H_DROPPED := "pending_statements_dropped"
 def H_TEMPNAME := "user_name_has_temporary_form"
 def H_CTX := "walrus_target_context_clobbered_by_hoisted_copy"
+/-- `_is_trivial` lists every operator class but `MatMult`: a configuration selecting the `op` child names the operator
+node itself (`tmp = @`), and the output is not a Python AST any more. -/
+def H_OPNODE := "matmult_operator_node_hoisted_as_expression"
 
 /-! Does the `ContextAdjuster(Load)` run on a hoisted copy reach the target of a `:=` (and make it a *read*)? -/
 mutual
@@ -323,7 +326,9 @@ def hazE (cfg : Config) : Expr → List String
   | .keyword _ _ _ v => hazE cfg v
   | .boolop _ _ vs => hazEs cfg vs
   | .unary _ _ e => hazE cfg e ++ pairsHaz cfg "UnaryOp" true [("operand", e)]
-  | .binop _ _ l r => hazE cfg l ++ hazE cfg r ++ pairsHaz cfg "BinOp" true [("left", l), ("right", r)]
+  | .binop _ op l r =>
+      (if op == "MatMult" && shouldTransform cfg "BinOp" "op" "MatMult" then [H_OPNODE] else [])
+        ++ hazE cfg l ++ hazE cfg r ++ pairsHaz cfg "BinOp" true [("left", l), ("right", r)]
   | .compare _ l _ rs => hazE cfg l ++ hazEs cfg rs ++ pairsHaz cfg "Compare" true (("left", l) :: tag "comparators" rs)
   | .ifexp _ t b e => hazE cfg t ++ hazE cfg b ++ hazE cfg e
   | .lambda .. => []
